@@ -22,6 +22,7 @@ import (
 	"os"
 	"sort"
 	"strings"
+	"sync"
 	"testing"
 	"time"
 
@@ -143,7 +144,71 @@ func (w *c19Writer) emit(v interface{}) {
 	w.n++
 }
 
+// a user subscription on the event bus next to the indexer's own
+type c19User struct {
+	us     c19UserSub
+	sub    types.Subscription
+	mu     sync.Mutex
+	got    []string
+	syncCh chan chan struct{}
+}
+
+func c19Label(data interface{}) string {
+	switch d := data.(type) {
+	case types.EventDataTx:
+		return "tx:" + string(d.Tx)
+	case types.EventDataNewBlock:
+		return fmt.Sprintf("blk:%d", d.Block.Height)
+	case types.EventDataNewBlockHeader:
+		return fmt.Sprintf("hdr:%d", d.Header.Height)
+	}
+	return fmt.Sprintf("other:%T", data)
+}
+
+// eager reader of an unbuffered user subscription
+func (u *c19User) reader(stop chan struct{}) {
+	for {
+		select {
+		case m := <-u.sub.Out():
+			u.mu.Lock()
+			u.got = append(u.got, c19Label(m.Data()))
+			u.mu.Unlock()
+		case ack := <-u.syncCh:
+			close(ack)
+		case <-stop:
+			return
+		}
+	}
+}
+
+func (u *c19User) project(wedged bool) map[string]interface{} {
+	if u.us.Cap == 0 && !wedged {
+		ack := make(chan struct{})
+		select {
+		case u.syncCh <- ack:
+			<-ack
+		case <-time.After(c19SettleLong):
+		}
+	}
+	cancelled := false
+	select {
+	case <-u.sub.Cancelled():
+		cancelled = true
+	default:
+	}
+	errs := "nil"
+	if err := u.sub.Err(); err != nil {
+		errs = err.Error()
+	}
+	u.mu.Lock()
+	got := append([]string{}, u.got...)
+	u.mu.Unlock()
+	return map[string]interface{}{"c": u.us.C, "cap": u.us.Cap, "got": got, "nbuf": len(u.sub.Out()),
+		"cancelled": cancelled, "err": errs}
+}
+
 type c19Env struct {
+	users       []*c19User
 	txDB, blkDB dbm.DB
 	txi         *kv.TxIndex
 	bli         *blockidxkv.BlockerIndexer
@@ -234,6 +299,10 @@ func (e *c19Env) publish(b c19Block, timeout time.Duration) bool {
 		for _, t := range b.Txs {
 			_ = e.bus.PublishEventTx(types.EventDataTx{TxResult: c19TxResult(t)})
 		}
+		// the command channel is unbuffered: once one more command has been accepted the
+		// loop has finished sending the last publication to every subscriber
+		_ = e.bus.Publish("VerifFlush", types.EventDataString("flush"))
+		_ = e.bus.Publish("VerifFlush", types.EventDataString("flush"))
 	}()
 	select {
 	case <-done:
@@ -292,26 +361,20 @@ func c19RunHist(t *testing.T, w *c19Writer, run int, h c19Hist) {
 			if err != nil {
 				t.Fatalf("run %d: user query %q: %v", run, c19Render(us.Q), err)
 			}
+			u := &c19User{us: us, got: []string{}, syncCh: make(chan chan struct{})}
 			if us.Cap == 0 {
-				sub, err := e.bus.SubscribeUnbuffered(context.Background(), us.C, q)
-				if err != nil {
-					t.Fatalf("run %d: %v", run, err)
-				}
+				u.sub, err = e.bus.SubscribeUnbuffered(context.Background(), us.C, q)
+			} else { // buffered, never read
+				u.sub, err = e.bus.Subscribe(context.Background(), us.C, q, us.Cap)
+			}
+			if err != nil {
+				t.Fatalf("run %d: %v", run, err)
+			}
+			e.users = append(e.users, u)
+			if us.Cap == 0 {
 				stop := make(chan struct{})
 				e.stops = append(e.stops, stop)
-				go func() { // eager reader
-					for {
-						select {
-						case <-sub.Out():
-						case <-sub.Cancelled():
-							return
-						case <-stop:
-							return
-						}
-					}
-				}()
-			} else if _, err := e.bus.Subscribe(context.Background(), us.C, q, us.Cap); err != nil { // never read
-				t.Fatalf("run %d: %v", run, err)
+				go u.reader(stop)
 			}
 		}
 	}
@@ -360,8 +423,12 @@ func c19RunHist(t *testing.T, w *c19Writer, run int, h c19Hist) {
 		if b.Txs == nil {
 			b.Txs = []c19Tx{}
 		}
+		users := []interface{}{}
+		for _, u := range e.users {
+			users = append(users, u.project(!published))
+		}
 		w.emit(map[string]interface{}{"ev": "Block", "run": run, "b": b, "published": published, "settled": settled,
-			"post": e.post()})
+			"post": e.post(), "users": users})
 		if !published {
 			wedged = true
 			break // the bus does not take events any more; nothing further can be committed
